@@ -93,6 +93,16 @@ theorem current_raises_documented : ∀ r ∈ Gen.current.raises, RaiseOk Gen.cu
 for the dynamic search, listed in the evidence — not a verdict and not a proof obligation; a harmless
 rename of a local must not break the build.) -/
 
+/-- **No function of the current tree reads a local that is certainly unbound**: no name is read after
+the `except … as` clause or the `del` that unbound it, or before anything has bound it
+(`UnboundLocalError` is a `NameError`).  Conditionally bound locals are hints only (see above). -/
+theorem current_no_dead_local_loads : deadLoadsOk Gen.currentDeadLoads = true := by decide
+
+/-- … hence no function of any module of the current tree fails with such a `NameError` -/
+theorem current_no_local_name_error (m : ModId) (fn var : Name) :
+    Err.nameError m (some fn) var ∉ localNameErrors Gen.currentDeadLoads :=
+  no_local_name_error _ current_no_dead_local_loads _
+
 example : Gen.current.raises ≠ [] := by decide
 example : (Gen.current.classes.any (·.isLenaExc)) = true := by decide
 
